@@ -195,6 +195,7 @@ def run(ctx):
     ok = bool(a) and bool(b) and cfg.must_pass(cfg.stmt_of(b[0]), lambda n: n is cfg.stmt_of(a[0]))
     ctx.ob("C13.R4", L + ":Linker.link", "relaxation runs before relocations are applied", ok, construct="relax-before-reloc")
     _cj_layout(ctx)
+    layout_markers(ctx, "C13.R6")
 
 
 def _sorted_before_apply(ctx):
@@ -236,3 +237,35 @@ def _cj_layout(ctx):
             got[lo + k] = shift + k + 1      # rel11 is the halfword offset: bit k of rel11 is offset bit k+1
     for ib, ob in sorted(CJ_REFERENCE.items()):
         ctx.ob("C13.R5", site, "instruction bit %d carries offset bit %d" % (ib, ob), got.get(ib) == ob, construct="cj-bit:%d" % ib, detail="carries offset bit %s" % got.get(ib))
+
+
+def layout_markers(ctx, rid):
+    """Relaxation moves what is tied to a section: _apply_relaxation_holes shifts symbols through their section's
+    holes (a symbol without section is skipped) and addresses through image.sections.  A layout marker
+    (DEFINESYMBOL(x)) placed behind relaxed code therefore has to be a symbol OF a section that sits in the image."""
+    ctx.rule(rid, "a symbol defined by the layout (DEFINESYMBOL) is section-relative - offset 0 of a section placed at the current address and added to the image - so that it shifts with everything else when bytes before it are removed; the relaxation pass skips section-less symbols", floor=4)
+    ls = ctx.fn(L, "Linker.layout_sections")
+    site = L + ":Linker.layout_sections"
+    br = [n for n in ast.walk(ls) if isinstance(n, ast.If) and "SymbolDefinition" in norm(n.test) and norm(n.test).startswith("isinstance(")]
+    ctx.need(len(br) == 1, "layout_sections: SymbolDefinition branch not found")
+    body = ast.Module(body=br[0].body, type_ignores=[])
+    env = sym.single_assign_env(body)
+    defs = [c for c in ast.walk(body) if isinstance(c, ast.Call) and last_name(c) in ("merge_global_symbol", "inject_symbol", "add_symbol")]
+    ok = len(defs) == 1 and len(defs[0].args) >= 3
+    sec = defs[0].args[1] if ok else None
+    ctx.ob(rid, site, "the marker is defined with a section (not None: a section-less symbol keeps its pre-relaxation value)", ok and not (isinstance(sec, ast.Constant) and sec.value is None), construct="marker-has-section", node=defs[0] if defs else br[0],
+           detail=norm(defs[0])[:100] if defs else "")
+    if not ok:
+        return
+    ctx.ob(rid, site, "at offset 0 of that section", try_const(defs[0].args[2]) == 0, construct="marker-offset-zero", detail=norm(defs[0].args[2]))
+    getsec = [n for n in ast.walk(body) if isinstance(n, ast.Assign) and isinstance(n.value, ast.Call) and last_name(n.value) == "get_section" and n.value.args and norm(n.value.args[0]) == norm(sec)]
+    okc = len(getsec) == 1 and any(k.arg == "create" and try_const(k.value) is True for k in getsec[0].value.keywords)
+    sv = norm(getsec[0].targets[0]) if getsec else None
+    addr = [n for n in ast.walk(body) if isinstance(n, ast.Assign) and sv and norm(n.targets[0]) == sv + ".address"]
+    ctx.ob(rid, site, "the section is created for the marker and placed at the current address", okc and len(addr) == 1 and norm(addr[0].value) == "current_address", construct="marker-section-placed",
+           detail=norm(addr[0]) if addr else "")
+    add = [c for c in ast.walk(body) if isinstance(c, ast.Call) and norm(c.func) == "image.add_section" and sv and norm(c.args[0]) == sv]
+    ctx.ob(rid, site, "and it is added to the image (image.sections is what the relaxation pass walks to move addresses)", len(add) == 1, construct="marker-section-in-image")
+    ar = ctx.fn(L, "Linker._apply_relaxation_holes")
+    skip = [n for n in ast.walk(ar) if isinstance(n, ast.If) and " ".join(norm(n.test).split()) in ("symbol.section is None",) and any(isinstance(x, ast.Continue) for x in n.body)]
+    ctx.ob(rid, L + ":Linker._apply_relaxation_holes", "(context) the symbol adjustment skips section-less symbols and moves the others through the holes of their own section", len(skip) == 1 and "hole_map[symbol.section]" in norm(ar), construct="sectionless-skipped")
